@@ -489,8 +489,44 @@ pub fn decode_blocker(t: &mut Tape) -> BlkCase {
     BlkCase { rules, reqs, ops, optimize: t.chance(1, 2) }
 }
 
+/// Many distinct regex rules queried one after the other on ONE live blocker (cache capacity /
+/// eviction effects), each answer compared with a blocker built fresh for that single query.
+pub fn check_big(c: &crate::gen::NetCase, obs: &mut Obs) -> Result<(), String> {
+    let res = ResourceStorage::from_resources(gen::std_resources());
+    let mut live = blocker_of(&c.rules, false);
+    live.use_tags(&c.tags.iter().map(|s| s.as_str()).collect::<Vec<_>>());
+    let reqs: Vec<_> = c.reqs.iter().filter_map(|r| mk_request(r).map(|q| (r, q))).collect();
+    for pass in 0..2 {
+        let mut answers = vec![];
+        for (_, q) in &reqs {
+            answers.push(Verdict::of(&live.check(q, &res)));
+        }
+        obs.inner_evals += reqs.len() as u64;
+        // oracle for a sample of the queries (first, last, around powers of two)
+        let n = reqs.len();
+        let mut idx: Vec<usize> = vec![0, 1, n / 2, n - 1];
+        for m in [15usize, 31, 63, 64, 127, 128, 255, 256, 511, 512, 513] {
+            if m < n {
+                idx.push(m);
+            }
+        }
+        for k in idx {
+            let mut fresh = blocker_of(&c.rules, false);
+            fresh.use_tags(&c.tags.iter().map(|s| s.as_str()).collect::<Vec<_>>());
+            let want = Verdict::of(&fresh.check(&reqs[k].1, &res));
+            if want.matched {
+                obs.nontrivial = true;
+            }
+            if answers[k] != want {
+                return Err(format!("{} rules, pass {}: query #{} {:?}: live blocker (after {} other queries) {:?}, fresh blocker {:?}", c.rules.len(), pass, k, reqs[k].0, k + pass * n, answers[k], want));
+            }
+        }
+    }
+    Ok(())
+}
+
 pub fn check(ctx: &mut Ctx) {
-    ctx.rule = "engine: rule list (network + cosmetic + same-shape tagged regex rules) and a history of 4-24 ops over {query all, query one, use/enable/disable tags, set discard policy (default / discard-everything-always / 1ns,1h / disabled), discard_regex(k-th cached id), serialize+deserialize own bytes, deserialize a sibling engine's bytes, use_resources(one of 3 sets), add_resource(one of 4)}; blocker: the same plus Blocker::optimize() and Blocker::add_filter(line). After every query op all answers (network verdict, csp set, cosmetic resources, class/id selectors) are compared with a freshly built engine/blocker from the model's current rules + tag set. Non-trivial = a query op that follows at least one mutator.".into();
+    ctx.rule = "engine: rule list (network + cosmetic + same-shape tagged regex rules) and a history of 4-24 ops over {query all, query one, use/enable/disable tags, set discard policy (default / discard-everything-always / 1ns,1h / disabled), discard_regex(k-th cached id), serialize+deserialize own bytes, deserialize a sibling engine's bytes, use_resources(one of 3 sets), add_resource(one of 4)}; blocker: the same plus Blocker::optimize() and Blocker::add_filter(line). After every query op all answers (network verdict, csp set, cosmetic resources, class/id selectors) are compared with a freshly built engine/blocker from the model's current rules + tag set. many-regexes: 2-800 same-shape (mostly regex) rules queried one after the other, twice, on one live blocker, sampled answers compared with a blocker built fresh for that single query. Non-trivial = a query op that follows at least one mutator.".into();
     ctx.assumptions = vec![
         "elapsed time is exercised through discard policies and explicit discards; the wall clock is never consulted by the oracle".into(),
         "add_filter of a $badfilter rule, or of a rule an existing $badfilter targets, is documented as unsupported and skipped (counted)".into(),
@@ -500,11 +536,14 @@ pub fn check(ctx: &mut Ctx) {
     drive(ctx, "engine", n, 1500, &decode_engine, &check_engine);
     let n = ctx.tier.pick(50_000, 800_000);
     drive(ctx, "blocker", n, 900, &decode_blocker, &check_blocker);
+    let n = ctx.tier.pick(120, 3_000);
+    drive(ctx, "many-regexes", n, 120, &|t| gen::big_group_case(t), &check_big);
 }
 
 pub fn replay(ctx: &mut Ctx, v: &Value) {
     match v.get("check").and_then(|c| c.as_str()) {
         Some("blocker") => replay_file::<BlkCase>(ctx, v, &check_blocker),
+        Some("many-regexes") => replay_file::<crate::gen::NetCase>(ctx, v, &check_big),
         _ => replay_file::<HistCase>(ctx, v, &check_engine),
     }
 }
